@@ -3,7 +3,7 @@ import CaresLemmas.ChanSockBase
 # `process_answer`'s acceptance path (C05, and the TC / empty-datagram clauses of C20)
 
 `bodyProcessAnswer` is decomposed (definitionally) into the checks, `ares_cookie_validate`'s side effects, and the
-tail `paTail` that runs once a response has been accepted.  `acceptKey` is the pure decision; `Authentic` spells out
+tail `paDeliver` that runs once a response has been accepted.  `acceptKey` is the pure decision; `Authentic` spells out
 what it has checked.
 -/
 namespace Cares.Chan
@@ -42,7 +42,7 @@ def paPre (s : St) (c : Conn) (key : Nat) (q : Query) (r : Reply) : St :=
 
 /-- `process_answer` once the response has passed every check: record it, unlink the query from its connection,
     then EDNS downgrade / TC→TCP / server-failure requeue / cache + `end_query` -/
-def paTail (go : Call → St → St × Ret) (fd : Nat) (r : Reply) (c : Conn) (key : Nat) (q0 : Query) (s : St) : St × Ret :=
+def paDeliver (go : Call → St → St × Ret) (fd : Nat) (r : Reply) (c : Conn) (key : Nat) (q0 : Query) (s : St) : St × Ret :=
   let q := (s.query? key).getD q0
   let s := { s with accepted := s.accepted ++ [(fd, key, r)] }
   let s := s.modConn (q.conn.getD fd) fun c => { c with queries := c.queries.erase key }
@@ -69,7 +69,7 @@ def paTail (go : Call → St → St × Ret) (fd : Nat) (r : Reply) (c : Conn) (k
     (s, .ok)
 
 /-- `process_answer` decomposed (definitional) -/
-theorem bodyProcessAnswer_eq (go : Call → St → St × Ret) (fd : Nat) (r : Reply) (s : St) :
+theorem bodyProcessAnswer_stages (go : Call → St → St × Ret) (fd : Nat) (r : Reply) (s : St) :
     bodyProcessAnswer go fd r s =
       match s.conn? fd with
       | none => (s.mfault s!"uaf-conn({fd}) in process_answer", .other)
@@ -86,7 +86,7 @@ theorem bodyProcessAnswer_eq (go : Call → St → St × Ret) (fd : Nat) (r : Re
             if !sameQuestion s.cfg q r then (s, .ok) else
             let (s', _) := if (cookieCheck s c q r).requeue then go (.requeue key .ok false none true) (paPre s c key q r)
                            else (paPre s c key q r, Status.ok)
-            if (cookieCheck s c q r).verdict == .drop then (s', .ok) else paTail go fd r c key q s' := by
+            if (cookieCheck s c q r).verdict == .drop then (s', .ok) else paDeliver go fd r c key q s' := by
   rfl
 
 /-- the decision of `process_answer`: the key of the query that response `r`, arriving on `fd`, answers -/
@@ -223,14 +223,14 @@ theorem acceptKey_of_authentic {s : St} {fd key : Nat} {r : Reply} (h : Authenti
 theorem bodyProcessAnswer_accept (go : Call → St → St × Ret) {s : St} {fd key : Nat} {r : Reply}
     (h : acceptKey s fd r = some key) :
     ∃ c q, s.conn? fd = some c ∧ s.query? key = some q ∧ q.conn = some fd ∧
-      bodyProcessAnswer go fd r s = paTail go fd r c key q (paPre s c key q r) := by
+      bodyProcessAnswer go fd r s = paDeliver go fd r c key q (paPre s c key q r) := by
   obtain ⟨c, id, q, hc, hempty, hgarb, hfind, hq, hconn, hs, hv⟩ := acceptKey_some h
   refine ⟨c, q, hc, hq, hconn, ?_⟩
   have hrq : (cookieCheck s c q r).requeue = false := by
     cases h' : (cookieCheck s c q r).requeue with
     | false => rfl
     | true => rw [cookieCheck_requeue_drop s c q r h'] at hv; cases hv
-  rw [bodyProcessAnswer_eq]
+  rw [bodyProcessAnswer_stages]
   simp only [hc, hempty, hgarb, hfind, hq, hconn, hs, hrq, hv, bne_self_eq_false, Bool.false_eq_true, ↓reduceIte,
     Bool.not_true]
   rfl
@@ -244,7 +244,7 @@ theorem bodyProcessAnswer_reject (go : Call → St → St × Ret) {s : St} {fd :
         (bodyProcessAnswer go fd r s).1 =
           if (cookieCheck s c q r).requeue then (go (.requeue key .ok false none true) (paPre s c key q r)).1
           else paPre s c key q r := by
-  rw [bodyProcessAnswer_eq]
+  rw [bodyProcessAnswer_stages]
   unfold acceptKey at h
   split
   · exact .inr (.inl ⟨_, rfl⟩)
@@ -298,10 +298,10 @@ theorem paPre_cfg (s : St) (c : Conn) (key : Nat) (q : Query) (r : Reply) :
 theorem paPre_cache (s : St) (c : Conn) (key : Nat) (q : Query) (r : Reply) :
     (paPre s c key q r).cache = s.cache := rfl
 
-theorem paTail_accepted (hgo : ∀ c s, (go c s).1.accepted = s.accepted) (fd : Nat) (r : Reply) (c : Conn)
+theorem paDeliver_accepted (hgo : ∀ c s, (go c s).1.accepted = s.accepted) (fd : Nat) (r : Reply) (c : Conn)
     (key : Nat) (q : Query) (s : St) :
-    (paTail go fd r c key q s).1.accepted = s.accepted ++ [(fd, key, r)] := by
-  unfold paTail
+    (paDeliver go fd r c key q s).1.accepted = s.accepted ++ [(fd, key, r)] := by
+  unfold paDeliver
   acc_simp hgo
 
 /-- **`process_answer` appends to `accepted` exactly the response it was given, exactly when `acceptKey` says so**
@@ -312,7 +312,7 @@ theorem bodyProcessAnswer_accepted (hgo : ∀ c s, (go c s).1.accepted = s.accep
   cases hk : acceptKey s fd r with
   | some key =>
     obtain ⟨c, q, _, _, _, heq⟩ := bodyProcessAnswer_accept go hk
-    rw [heq, paTail_accepted go hgo, paPre_accepted]; rfl
+    rw [heq, paDeliver_accepted go hgo, paPre_accepted]; rfl
   | none =>
     simp only [Option.map_none, Option.toList_none, List.append_nil]
     rcases bodyProcessAnswer_reject go hk with h | ⟨e, h⟩ | ⟨c, key, q, _, _, _, h⟩
@@ -350,9 +350,9 @@ variable (cfg0 : Cfg) (base : List (Nat × Nat × Reply)) (go : Call → St → 
   (hgo : ∀ c s, AccOK cfg0 base s → AccOK cfg0 base (go c s).1)
 include hgo
 
-theorem paTail_AccOK (fd : Nat) (r : Reply) (c : Conn) (key : Nat) (q : Query) (s : St)
-    (h : AccOKF cfg0 base s.cfg (s.accepted ++ [(fd, key, r)])) : AccOK cfg0 base (paTail go fd r c key q s).1 := by
-  unfold paTail
+theorem paDeliver_AccOK (fd : Nat) (r : Reply) (c : Conn) (key : Nat) (q : Query) (s : St)
+    (h : AccOKF cfg0 base s.cfg (s.accepted ++ [(fd, key, r)])) : AccOK cfg0 base (paDeliver go fd r c key q s).1 := by
+  unfold paDeliver
   chan_peel hgo [AccOK]
 
 theorem bodyProcessAnswer_AccOK (fd : Nat) (r : Reply) (s : St) (h : AccOK cfg0 base s) :
@@ -361,7 +361,7 @@ theorem bodyProcessAnswer_AccOK (fd : Nat) (r : Reply) (s : St) (h : AccOK cfg0 
   | some key =>
     obtain ⟨c, q, _, _, _, heq⟩ := bodyProcessAnswer_accept go hk
     rw [heq]
-    apply paTail_AccOK cfg0 base go hgo
+    apply paDeliver_AccOK cfg0 base go hgo
     rw [paPre_accepted, paPre_cfg]
     exact AccOKF_append h (fd, key, r) s h.1 (acceptKey_authentic hk)
   | none =>
@@ -401,11 +401,11 @@ theorem sqLink_AccOK (pd : Bool) (key : Nat) (srv : Server) (fd : Nat) (s : St) 
     AccOK cfg0 base (sqLink go pd key srv fd s).1 := by
   unfold sqLink; chan_peel hgo [AccOK]
 
-theorem sqWrite_AccOK (reqSrv : Option Nat) (key : Nat) (q : Query) (srv : Server) (fd : Nat) (s : St)
-    (h : AccOK cfg0 base s) : AccOK cfg0 base (sqWrite go reqSrv key q srv fd s).1 := by
-  have h1 : AccOK cfg0 base (sqPrep key q srv fd s).1 := by simpa only [AccOK, chan_frame] using h
+theorem sqWriteQ_AccOK (reqSrv : Option Nat) (key : Nat) (q : Query) (srv : Server) (fd : Nat) (s : St)
+    (h : AccOK cfg0 base s) : AccOK cfg0 base (sqWriteQ go reqSrv key q srv fd s).1 := by
+  have h1 : AccOK cfg0 base (sqPrepare key q srv fd s).1 := by simpa only [AccOK, chan_frame] using h
   have h2 := sqFlush_AccOK cfg0 base go hgo fd _ h1
-  unfold sqWrite
+  unfold sqWriteQ
   simp only []
   split
   · exact sqLink_AccOK cfg0 base go hgo _ _ _ _ _ h2
@@ -414,7 +414,7 @@ theorem sqWrite_AccOK (reqSrv : Option Nat) (key : Nat) (q : Query) (srv : Serve
 
 theorem bodySendQuery_AccOK (reqSrv : Option Nat) (key : Nat) (s : St) (h : AccOK cfg0 base s) :
     AccOK cfg0 base (bodySendQuery go reqSrv key s).1 := by
-  rw [bodySendQuery_eq]
+  rw [bodySendQuery_stages]
   split
   · simpa only [AccOK, chan_frame] using h
   · simp only []
@@ -422,7 +422,7 @@ theorem bodySendQuery_AccOK (reqSrv : Option Nat) (key : Nat) (s : St) (h : AccO
     · exact hgo _ _ (by simpa only [AccOK, chan_frame] using h)
     · split <;> pair_subst
       · apply hgo; split at * <;> simp_all only [AccOK, chan_frame]
-      · apply sqWrite_AccOK cfg0 base go hgo; split at * <;> simp_all only [AccOK, chan_frame]
+      · apply sqWriteQ_AccOK cfg0 base go hgo; split at * <;> simp_all only [AccOK, chan_frame]
 
 theorem execBody_AccOK (c : Call) (s : St) (h : AccOK cfg0 base s) : AccOK cfg0 base (execBody go c s).1 := by
   cases c <;> simp only [execBody]
@@ -461,7 +461,7 @@ theorem bodyProcessAnswer_garbage (go : Call → St → St × Ret) (fd : Nat) (r
 theorem bodyProcessAnswer_unknown_id (go : Call → St → St × Ret) (fd : Nat) (r : Reply) (s : St) (c : Conn)
     (hc : s.conn? fd = some c) (hid : s.byQid.find? (·.1 == r.id) = none) :
     (bodyProcessAnswer go fd r s).1 = s := by
-  rw [bodyProcessAnswer_eq]; simp only [hc, hid]
+  rw [bodyProcessAnswer_stages]; simp only [hc, hid]
   repeat (first | rfl | split)
 
 /-- a response arriving on a connection other than the one its query is assigned to changes nothing
@@ -470,7 +470,7 @@ theorem bodyProcessAnswer_other_conn (go : Call → St → St × Ret) (fd : Nat)
     (id key : Nat) (q : Query) (hc : s.conn? fd = some c) (hid : s.byQid.find? (·.1 == r.id) = some (id, key))
     (hq : s.query? key = some q) (hconn : q.conn ≠ some fd) :
     (bodyProcessAnswer go fd r s).1 = s := by
-  rw [bodyProcessAnswer_eq]; simp only [hc, hid, hq]
+  rw [bodyProcessAnswer_stages]; simp only [hc, hid, hq]
   have : (q.conn != some fd) = true := by simpa using hconn
   simp only [this, ↓reduceIte]
   repeat (first | rfl | split)
@@ -480,10 +480,10 @@ theorem bodyProcessAnswer_wrong_question (go : Call → St → St × Ret) (fd : 
     (id key : Nat) (q : Query) (hc : s.conn? fd = some c) (hid : s.byQid.find? (·.1 == r.id) = some (id, key))
     (hq : s.query? key = some q) (hs : sameQuestion s.cfg q r = false) :
     (bodyProcessAnswer go fd r s).1 = s := by
-  rw [bodyProcessAnswer_eq]; simp only [hc, hid, hq, hs, Bool.not_false, ↓reduceIte]
+  rw [bodyProcessAnswer_stages]; simp only [hc, hid, hq, hs, Bool.not_false, ↓reduceIte]
   repeat (first | rfl | split)
 
-theorem find?_map_key (k : Nat) (f : Query → Query) (hf : ∀ q, (f q).key = q.key) : ∀ (l : List Query),
+theorem find?_map_qkey (k : Nat) (f : Query → Query) (hf : ∀ q, (f q).key = q.key) : ∀ (l : List Query),
     (l.map fun x => if x.key == k then f x else x).find? (·.key == k) = (l.find? (·.key == k)).map f
   | [] => rfl
   | x :: rest => by
@@ -493,10 +493,10 @@ theorem find?_map_key (k : Nat) (f : Query → Query) (hf : ∀ q, (f q).key = q
       simp only [hx, ↓reduceIte, this, Option.map_some]
     · simp only [Bool.not_eq_true] at hx
       simp only [hx, Bool.false_eq_true, ↓reduceIte]
-      exact find?_map_key k f hf rest
+      exact find?_map_qkey k f hf rest
 
-theorem query?_modQuery_self (s : St) (k : Nat) (f : Query → Query) (hf : ∀ q, (f q).key = q.key) :
-    (s.modQuery k f).query? k = (s.query? k).map f := find?_map_key k f hf s.qs
+theorem query?_modQuery_same (s : St) (k : Nat) (f : Query → Query) (hf : ∀ q, (f q).key = q.key) :
+    (s.modQuery k f).query? k = (s.query? k).map f := find?_map_qkey k f hf s.qs
 
 theorem mem_qs_modQuery {s : St} {k : Nat} {f : Query → Query} {q' : Query} (h : q' ∈ (s.modQuery k f).qs) :
     ∃ q ∈ s.qs, q' = if q.key == k then f q else q := by
@@ -521,13 +521,13 @@ theorem bodyProcessAnswer_tc (go : Call → St → St × Ret) (fd : Nat) (r : Re
   rw [hc] at hc'; cases hc'
   have hrc' : (r.rcode == 1) = false := by simpa using hrc
   rw [heq]
-  unfold paTail
+  unfold paDeliver
   simp only [hrc', Bool.false_and, Bool.false_eq_true, ↓reduceIte, htc, hudp, chan_frame, paPre_cfg, hign,
     Bool.not_false, Bool.and_self]
   refine ⟨_, q, rfl, hq, ?_, by simp only [chan_frame, paPre_accepted], ?_, by simp only [chan_frame]; rfl,
     by simp only [chan_frame, paPre_cache]⟩
   · simp only [chan_frame]
-    have : (paPre s c key q r).query? key = (s.query? key).map _ := query?_modQuery_self _ _ _ (fun _ => rfl)
+    have : (paPre s c key q r).query? key = (s.query? key).map _ := query?_modQuery_same _ _ _ (fun _ => rfl)
     rw [this, hq]
     rfl
   · intro q' hq' hkey
@@ -545,7 +545,7 @@ theorem bodyProcessAnswer_igntc (go : Call → St → St × Ret) (fd : Nat) (r :
   obtain ⟨c', q, hc', hq, _, heq⟩ := bodyProcessAnswer_accept go hk
   rw [hc] at hc'; cases hc'
   rw [heq]
-  unfold paTail
+  unfold paDeliver
   simp only [hrc, hign, Bool.not_true, Bool.and_false, Bool.false_and, chan_frame, paPre_cfg, Nat.reduceBEq,
     Bool.or_self, Bool.false_eq_true, ↓reduceIte]
   exact ⟨_, rfl, by simp only [chan_frame, paPre_accepted]⟩
